@@ -960,5 +960,15 @@ def replay(ctx, path):
         ax, an = rot.quaternion_to_axis_angle(rot.identity_quaternion(dtype=torch.float64))
         print("axis", ax.tolist(), "angle", float(an))
         return 1 if abs(float(ax.norm()) - 1) > 1e-9 else 0
+    if key.endswith("/batch-shape"):
+        # re-run the batch-shape independence sweep (deterministic given the seed stored in the replay)
+        class _Ctx:
+            seed = int(rep.get("seed", 0))
+            def case(self, *a, **k): pass
+            def count(self, *a, **k): pass
+            def obligation(self, *a, **k): pass
+            def violation(self, k, r, found=True): print("still failing:", k, json.dumps({x: r[x] for x in ("oracle", "shape", "position", "error") if x in r}))
+        fails = batch_shape_checks(_Ctx(), real)
+        return 1 if fails else 0
     print("nothing to replay for this key; run ./check C12")
     return 2
